@@ -9,6 +9,10 @@
 //!   and vice versa, `check --read-data` clean, snapshot reads back as the source.
 //! * `c13 hist <src A> <src B> <run,run,…>`: per run: backup A, backup B (parent), forget A's snapshot, prune
 //!   (repacking with the run's pack sizes) under delays; oracles as above for the surviving snapshot.
+//! * rayon pool: the `stream` seed and every run token carry an optional pool field (`seed[.pool]`,
+//!   `seed.dpack.tpack[.pool]`): missing/`0` = this process's default pool; `<n>` = the run's commands and oracles execute
+//!   inside `ThreadPoolBuilder::num_threads(n)…install(..)` (caller = a worker of the pool); `g<n>` = they execute in a child
+//!   `vh exec` with `RAYON_NUM_THREADS=n` (global pool of n, caller outside it; op `c13 solo …` is the child side).
 //! * `c13 chk <delay ms>`: `check --read-data` on a repository with a missing tree and slow reads must not
 //!   panic (loader threads of an aborted `TreeStreamerOnce` still hold the index).
 use std::collections::{BTreeMap, BTreeSet};
@@ -130,6 +134,127 @@ fn watchdog<T: Send + 'static>(secs: u64, f: impl FnOnce() -> T + Send + 'static
     }
 }
 
+/// Which rayon pool the real commands of a run use (`par_iter`, `par_sort`, `par_bridge`, `rayon::spawn`).
+#[derive(Clone, Copy, Debug, PartialEq, Eq)]
+enum Pool {
+    /// field missing or `0`: this process's default pool (one worker per CPU), caller outside the pool
+    Default,
+    /// `<n>`: in-process `ThreadPoolBuilder::num_threads(n)…install(..)` — the caller itself is one of the n workers
+    Installed(usize),
+    /// `g<n>`: a child `vh exec` with `RAYON_NUM_THREADS=n` — the global pool has n workers, the caller is outside it —
+    /// and CPU affinity restricted to n CPUs (so `available_parallelism()` = n: pariter's `parallel_map` stages get n threads)
+    Global(usize),
+}
+
+fn parse_pool(s: &str) -> Option<Pool> {
+    let (g, num) = match s.strip_prefix('g') {
+        Some(r) => (true, r),
+        None => (false, s),
+    };
+    if num.is_empty() || !num.bytes().all(|b| b.is_ascii_digit()) {
+        return None;
+    }
+    let n: usize = num.parse().ok().filter(|n| *n <= 64)?;
+    match (g, n) {
+        (false, 0) => Some(Pool::Default),
+        (true, 0) => None,
+        (false, n) => Some(Pool::Installed(n)),
+        (true, n) => Some(Pool::Global(n)),
+    }
+}
+
+/// Run `f` inside a dedicated rayon pool of `threads` workers (`0`: no pool switch).
+fn in_pool<T: Send>(threads: usize, f: impl FnOnce() -> T + Send) -> T {
+    if threads == 0 {
+        return f();
+    }
+    rayon::ThreadPoolBuilder::new().num_threads(threads).build().unwrap().install(f)
+}
+
+/// Execute one op line in a child `vh exec` whose global rayon pool has `threads` workers.  `Err("timeout")` = no answer
+/// within `secs` seconds (the child is killed); `Err("child-…")` = the child could not be run at all (harness trouble,
+/// reported as such — never as a timeout).
+fn in_child(threads: usize, secs: u64, line: &str) -> Result<String, String> {
+    use std::io::{Read, Write};
+    use std::process::{Command, Stdio};
+    // the running image itself (survives a rebuild that replaces the file on disk)
+    let exe = if std::path::Path::new("/proc/self/exe").exists() {
+        PathBuf::from(format!("/proc/{}/exe", std::process::id()))
+    } else {
+        std::env::current_exe().map_err(|e| format!("child-no-exe:{:?}", e.kind()))?
+    };
+    // restrict the child to `threads` CPUs as well (when `taskset` exists and that many CPUs are there): the stages
+    // sized by `std::thread::available_parallelism()` (pariter's `parallel_map` in the packer pipeline and the archiver)
+    // then run with `threads` workers too
+    let ncpu = std::thread::available_parallelism().map_or(1, std::num::NonZero::get);
+    let cpus = (threads <= ncpu).then(|| {
+        let off = line.len() % ncpu;
+        (0..threads).map(|i| ((off + i) % ncpu).to_string()).collect::<Vec<_>>().join(",")
+    });
+    let spawn = |affinity: Option<&String>| {
+        let mut cmd = match affinity {
+            Some(list) => {
+                let mut c = Command::new("taskset");
+                _ = c.arg("-c").arg(list).arg(&exe);
+                c
+            }
+            None => Command::new(&exe),
+        };
+        cmd.arg("exec").env("RAYON_NUM_THREADS", threads.to_string()).stdin(Stdio::piped()).stdout(Stdio::piped()).stderr(Stdio::null()).spawn()
+    };
+    let mut tries = 0;
+    let mut affinity = cpus.as_ref();
+    let mut child = loop {
+        match spawn(affinity) {
+            Ok(c) => break c,
+            // no `taskset`: run without the CPU restriction
+            Err(e) if affinity.is_some() && e.kind() == std::io::ErrorKind::NotFound => affinity = None,
+            // EAGAIN under load: wait and retry
+            Err(_) if tries < 20 => {
+                tries += 1;
+                std::thread::sleep(Duration::from_millis(100));
+            }
+            Err(e) => return Err(format!("child-spawn-failed:{:?}", e.kind())),
+        }
+    };
+    {
+        let mut stdin = child.stdin.take().ok_or("child-no-stdin")?;
+        stdin.write_all(line.as_bytes()).and_then(|()| stdin.write_all(b"\n")).map_err(|e| format!("child-write-failed:{:?}", e.kind()))?;
+    }
+    let mut stdout = child.stdout.take().ok_or("child-no-stdout")?;
+    let reader = std::thread::spawn(move || {
+        let mut out = String::new();
+        _ = stdout.read_to_string(&mut out);
+        out
+    });
+    let t0 = std::time::Instant::now();
+    loop {
+        match child.try_wait() {
+            Ok(Some(_)) => break,
+            Ok(None) if t0.elapsed() < Duration::from_secs(secs) => std::thread::sleep(Duration::from_millis(3)),
+            _ => {
+                _ = child.kill();
+                _ = child.wait();
+                return Err("timeout".into());
+            }
+        }
+    }
+    let out = reader.join().map_err(|_| "child-reader-panicked".to_string())?;
+    out.lines().next().map(ToString::to_string).ok_or_else(|| "child-no-output".to_string())
+}
+
+/// `<seed>` or `<seed>.<pool>`
+/// `seed[.pool[.watchdog-seconds]]` (the watchdog defaults to 60 s; a shorter one keeps a witness of a hang cheap to replay)
+fn parse_seed_pool(s: &str) -> Option<(u64, Pool, u64)> {
+    let f: Vec<&str> = s.split('.').collect();
+    match f.as_slice() {
+        [a] => Some((a.parse().ok()?, Pool::Default, 60)),
+        [a, b] => Some((a.parse().ok()?, parse_pool(b)?, 60)),
+        [a, b, w] => Some((a.parse().ok()?, parse_pool(b)?, w.parse().ok().filter(|w| (1..=600).contains(w))?)),
+        _ => None,
+    }
+}
+
 macro_rules! tryk {
     ($e:expr) => {
         match $e {
@@ -183,9 +308,24 @@ fn store_forest(h: &DH, forest: &[(u64, Vec<u64>)]) -> RusticResult<()> {
 }
 
 fn exec_stream(seed: &str, forest: &str, roots: &str) -> String {
-    let (Ok(seed), Some(forest)) = (seed.parse::<u64>(), parse_forest(forest)) else {
+    let (Some((seed, pool, wd_secs)), Some(forest_v)) = (parse_seed_pool(seed), parse_forest(forest)) else {
         return "bad-op".into();
     };
+    let threads = match pool {
+        Pool::Default => 0,
+        Pool::Installed(n) => n,
+        Pool::Global(n) => {
+            if roots != "-" && roots.split(',').any(|x| x.parse::<u64>().is_err()) {
+                return "bad-op".into();
+            }
+            return match in_child(n, 90, &format!("c13 stream {seed} {forest} {roots}")) {
+                Ok(s) => s,
+                Err(e) if e == "timeout" => "oracle-fail:timeout".into(),
+                Err(e) => e,
+            };
+        }
+    };
+    let forest = forest_v;
     let roots: Vec<u64> = if roots == "-" {
         vec![]
     } else {
@@ -200,7 +340,8 @@ fn exec_stream(seed: &str, forest: &str, roots: &str) -> String {
     let mut hd = h.clone();
     hd.be.max_us = if seed % 3 == 0 { 0 } else { 3000 };
     let ids: Vec<TreeId> = roots.iter().map(|l| TreeId::from(fake_id(*l, TAG_TREE))).collect();
-    let res = watchdog(60, move || -> Result<Vec<String>, String> {
+    let res = watchdog(wd_secs, move || -> Result<Vec<String>, String> {
+      in_pool(threads, move || {
         let repo = hd.open().and_then(|r| r.to_indexed_ids()).map_err(|e| crate::util::errkind(&e))?;
         let items = rustic_core::verif::tree::stream_once(&repo, ids).map_err(|e| crate::util::errkind(&e))?;
         let mut out = vec![];
@@ -211,6 +352,7 @@ fn exec_stream(seed: &str, forest: &str, roots: &str) -> String {
             }
         }
         Ok(out)
+      })
     });
     match res {
         None => "oracle-fail:timeout".into(),
@@ -231,14 +373,17 @@ fn exec_stream(seed: &str, forest: &str, roots: &str) -> String {
 // ------------------------------------------------------------------------------------------------
 // run / hist
 
-fn parse_runs(s: &str) -> Option<Vec<(u64, u64, u64)>> {
+/// run token `seed.dpack.tpack[.pool]`; pool: missing/`0` default pool, `<n>` installed pool, `g<n>` child with global pool
+fn parse_runs(s: &str) -> Option<Vec<(u64, u64, u64, Pool)>> {
     s.split(',')
         .map(|t| {
             let f: Vec<&str> = t.split('.').collect();
-            if f.len() != 3 {
-                return None;
-            }
-            Some((f[0].parse().ok()?, f[1].parse().ok()?, f[2].parse().ok()?))
+            let pool = match f.len() {
+                3 => Pool::Default,
+                4 => parse_pool(f[3])?,
+                _ => return None,
+            };
+            Some((f[0].parse().ok()?, f[1].parse().ok()?, f[2].parse().ok()?, pool))
         })
         .collect()
 }
@@ -352,22 +497,14 @@ fn state_oracles(h: &DH, snap: &SnapshotFile, src: &[SE], k: usize) -> Result<BT
     referenced(&repo, snap.tree).map_err(|e| crate::util::errkind(&e))
 }
 
-fn exec_run(src: &str, runs: &str, src_b: Option<&str>) -> String {
-    let (Some(sa), Some(runs)) = (parse_src(src), parse_runs(runs)) else {
-        return "bad-op".into();
-    };
-    let sb = match src_b {
-        None => None,
-        Some(b) => match parse_src(b) {
-            Some(v) => Some(v),
-            None => return "bad-op".into(),
-        },
-    };
-    let mut first: Option<(Id, BTreeSet<(u8, Id)>)> = None;
-    for (k, (seed, dsize, tsize)) in runs.iter().enumerate() {
-        let (seed, dsize, tsize) = (*seed, *dsize, *tsize);
-        let (sa2, sb2) = (sa.clone(), sb.clone());
-        let res = watchdog(120, move || -> Result<(DH, SnapshotFile), String> {
+type RunResult = Result<(Id, BTreeSet<(u8, Id)>), String>;
+
+/// One run in this process: the commands and then the oracles, both inside a pool of `threads` workers (0: as is),
+/// each under a watchdog.  `Ok((tree id, referenced (type, id) set))` or the observation to report.
+fn one_run(sa: &[SE], sb: Option<&[SE]>, seed: u64, dsize: u64, tsize: u64, threads: usize, k: usize) -> RunResult {
+    let (sa2, sb2) = (sa.to_vec(), sb.map(<[SE]>::to_vec));
+    let res = watchdog(120, move || -> Result<(DH, SnapshotFile), String> {
+        in_pool(threads, move || {
             let h = DH::init(DelayBackend::new(seed, if seed == 0 { 0 } else { 1500 }), &run_cfg(dsize, tsize)).map_err(|e| crate::util::errkind(&e))?;
             let force = BackupOptions::default().parent_opts(ParentOptions::default().force(true));
             let repo = h.open().and_then(|r| r.to_indexed_ids()).map_err(|e| crate::util::errkind(&e))?;
@@ -395,23 +532,99 @@ fn exec_run(src: &str, runs: &str, src_b: Option<&str>) -> String {
             let plan = repo.prune_plan(&popts).map_err(|e| crate::util::errkind(&e))?;
             repo.prune(&popts, plan).map_err(|e| crate::util::errkind(&e))?;
             Ok((h, snap_b))
-        });
-        let (h, snap) = match res {
-            None => return format!("oracle-fail:run{k}:timeout"),
-            Some(Err(e)) => return format!("run{k}:{e}"),
-            Some(Ok(x)) => x,
+        })
+    });
+    let (h, snap) = match res {
+        None => return Err(format!("oracle-fail:run{k}:timeout")),
+        Some(Err(e)) => return Err(format!("run{k}:{e}")),
+        Some(Ok(x)) => x,
+    };
+    // the oracles (`check --read-data`, reading the snapshot back) are real commands too: same pool, own watchdog
+    let src_final = sb.unwrap_or(sa).to_vec();
+    let mut hq = h.clone();
+    hq.be.max_us = 0;
+    let snap2 = snap.clone();
+    match watchdog(120, move || in_pool(threads, move || state_oracles(&hq, &snap2, &src_final, k))) {
+        None => Err(format!("oracle-fail:run{k}:oracle-timeout")),
+        Some(Ok(r)) => Ok((*snap.tree, r)),
+        Some(Err(e)) => Err(e),
+    }
+}
+
+fn enc_result(r: &RunResult) -> String {
+    match r {
+        Err(e) => e.clone(),
+        Ok((t, refs)) => format!(
+            "solo {} {}",
+            t.to_hex().as_str(),
+            refs.iter().map(|(ty, id)| format!("{ty}:{}", id.to_hex().as_str())).collect::<Vec<_>>().join(",")
+        ),
+    }
+}
+
+fn dec_result(s: &str) -> RunResult {
+    let bad = || Err(format!("child:{s}"));
+    let f: Vec<&str> = s.split(' ').collect();
+    if f.len() != 3 || f[0] != "solo" {
+        // the child's own observation (`oracle-fail:run<k>:…`, `run<k>:err:…`, `panic:…`)
+        return Err(s.to_string());
+    }
+    let Ok(t) = f[1].parse::<Id>() else { return bad() };
+    let mut refs = BTreeSet::new();
+    for x in f[2].split(',') {
+        let Some((ty, id)) = x.split_once(':') else { return bad() };
+        let (Ok(ty), Ok(id)) = (ty.parse::<u8>(), id.parse::<Id>()) else { return bad() };
+        _ = refs.insert((ty, id));
+    }
+    Ok((t, refs))
+}
+
+/// `c13 solo <k> <src A> <src B|~> <seed.dpack.tpack>`: one run in this process's default pool (the child side of `g<n>`)
+fn exec_solo(k: &str, a: &str, b: &str, run: &str) -> String {
+    let (Ok(k), Some(sa), Some(runs)) = (k.parse::<usize>(), parse_src(a), parse_runs(run)) else {
+        return "bad-op".into();
+    };
+    let sb = if b == "~" { None } else { parse_src(b) };
+    if (b != "~" && sb.is_none()) || runs.len() != 1 || runs[0].3 != Pool::Default {
+        return "bad-op".into();
+    }
+    let (seed, dsize, tsize, _) = runs[0];
+    enc_result(&one_run(&sa, sb.as_deref(), seed, dsize, tsize, 0, k))
+}
+
+fn exec_run(src: &str, runs: &str, src_b: Option<&str>) -> String {
+    let (Some(sa), Some(runs)) = (parse_src(src), parse_runs(runs)) else {
+        return "bad-op".into();
+    };
+    let sb = match src_b {
+        None => None,
+        Some(b) => match parse_src(b) {
+            Some(v) => Some(v),
+            None => return "bad-op".into(),
+        },
+    };
+    let mut first: Option<(Id, BTreeSet<(u8, Id)>)> = None;
+    for (k, (seed, dsize, tsize, pool)) in runs.iter().enumerate() {
+        let res = match *pool {
+            Pool::Default => one_run(&sa, sb.as_deref(), *seed, *dsize, *tsize, 0, k),
+            Pool::Installed(n) => one_run(&sa, sb.as_deref(), *seed, *dsize, *tsize, n, k),
+            Pool::Global(n) => {
+                let line = format!("c13 solo {k} {src} {} {seed}.{dsize}.{tsize}", src_b.unwrap_or("~"));
+                match in_child(n, 300, &line) {
+                    Ok(s) => dec_result(&s),
+                    Err(e) if e == "timeout" => Err(format!("oracle-fail:run{k}:timeout")),
+                    Err(e) => Err(format!("run{k}:{e}")),
+                }
+            }
         };
-        let src_final = sb.as_ref().unwrap_or(&sa);
-        let mut hq = h.clone();
-        hq.be.max_us = 0;
-        let refs = match state_oracles(&hq, &snap, src_final, k) {
-            Ok(r) => r,
+        let (tree, refs) = match res {
+            Ok(x) => x,
             Err(e) => return e,
         };
         match &first {
-            None => first = Some((*snap.tree, refs)),
+            None => first = Some((tree, refs)),
             Some((t0, r0)) => {
-                if *t0 != *snap.tree {
+                if *t0 != tree {
                     return format!("oracle-fail:run{k}:tree-id-differs");
                 }
                 if *r0 != refs {
@@ -526,19 +739,38 @@ fn gen_stream(rng: &mut Rng, stats: &mut Stats) -> String {
     let roots: Vec<u64> = (0..n_roots).map(|_| rng.range(1, n)).collect();
     stats.add("c13.stream.trees", n);
     stats.hit(format!("c13.stream.roots.{n_roots}"));
+    let seed = rng.below(1000);
+    // the streamer's four loaders are std threads; the pool governs the index loading of the op
+    let threads = gen_pool(rng, stats);
     format!(
-        "c13 stream {} {} {}",
-        rng.below(1000),
+        "c13 stream {seed}.{threads} {} {}",
         forest.iter().map(|(i, cs)| format!("{i}={}", cs.iter().map(u64::to_string).collect::<Vec<_>>().join("."))).collect::<Vec<_>>().join(";"),
         if roots.is_empty() { "-".into() } else { roots.iter().map(u64::to_string).collect::<Vec<_>>().join(",") }
     )
 }
 
-fn gen_runs(rng: &mut Rng, n: usize) -> String {
+/// rayon pool of one run, sizes 1..=16 with the extremes over-represented.  `g<n>`: child process with a global pool
+/// of n workers (the caller is outside the pool, as in the `rustic` binary with `RAYON_NUM_THREADS=n`); `<n>`: the
+/// commands run inside `ThreadPool::install` of an n-worker pool (the caller is one of the workers) — n ≥ 2 only:
+/// with n = 1 the sole worker blocks in `stream_list`'s receiver and its `rayon::spawn`ed producer never starts.
+fn gen_pool(rng: &mut Rng, stats: &mut Stats) -> String {
+    let t = match rng.below(8) {
+        0 | 1 => 1,
+        2 => 2,
+        3 => 16,
+        _ => rng.range(1, 16),
+    };
+    let global = t == 1 || rng.chance(1, 3);
+    stats.hit(format!("c13.pool.{}{t}", if global { "g" } else { "" }));
+    format!("{}{t}", if global { "g" } else { "" })
+}
+
+fn gen_runs(rng: &mut Rng, n: usize, stats: &mut Stats) -> String {
     let sizes = [1u64, 1, 200, 5000, 4_000_000];
-    let mut v = vec![format!("0.{}.{}", sizes[4], sizes[4])];
+    // run 0: undelayed, default packs, default pool
+    let mut v = vec![format!("0.{}.{}.0", sizes[4], sizes[4])];
     for _ in 1..n {
-        v.push(format!("{}.{}.{}", 1 + rng.below(10_000), rng.pick(&sizes), rng.pick(&sizes)));
+        v.push(format!("{}.{}.{}.{}", 1 + rng.below(10_000), rng.pick(&sizes), rng.pick(&sizes), gen_pool(rng, stats)));
     }
     v.join(",")
 }
@@ -567,13 +799,13 @@ pub fn generate(thorough: bool, rng: &mut Rng, ops: &mut Vec<String>, stats: &mu
         let mut r = rng.fork();
         let (a, _) = gen_src_pair(&mut r, stats);
         stats.hit("c13.run");
-        ops.push(format!("c13 run {} {}", enc_src(&a), gen_runs(&mut r, if thorough { 5 } else { 3 })));
+        ops.push(format!("c13 run {} {}", enc_src(&a), gen_runs(&mut r, if thorough { 5 } else { 3 }, stats)));
     }
     for _ in 0..(if thorough { 200 } else { 12 }) {
         let mut r = rng.fork();
         let (a, b) = gen_src_pair(&mut r, stats);
         stats.hit("c13.hist");
-        ops.push(format!("c13 hist {} {} {}", enc_src(&a), enc_src(&b), gen_runs(&mut r, if thorough { 4 } else { 3 })));
+        ops.push(format!("c13 hist {} {} {}", enc_src(&a), enc_src(&b), gen_runs(&mut r, if thorough { 4 } else { 3 }, stats)));
     }
     ops.push("c13 chk 250".into());
 }
@@ -584,6 +816,7 @@ pub fn exec(t: &[&str]) -> String {
         ["stream", seed, forest, roots] => exec_stream(seed, forest, roots),
         ["run", src, runs] => exec_run(src, runs, None),
         ["hist", a, b, runs] => exec_run(a, runs, Some(b)),
+        ["solo", k, a, b, run] => exec_solo(k, a, b, run),
         ["chk", ms] => exec_chk(ms),
         _ => "bad-op".into(),
     })
